@@ -323,6 +323,12 @@ func (d *Driver) handleWriteCommands(devName string, p protocolMap, reqs []dsMod
 	var reqData []byte         // incoming JSON request data, if present
 	var dataTarget interface{} // used if the reqData in a subfield of the llrpReq
 
+	// Only the ID resources take a second resource (the Action);
+	// it is not possible to write more than one deviceResource at a time.
+	if name := reqs[0].DeviceResourceName; name != ResourceROSpecID && name != ResourceAccessSpecID && len(reqs) != 1 {
+		return fmt.Errorf("expected 1 resource for %q op, but got %d", name, len(reqs))
+	}
+
 	switch reqs[0].DeviceResourceName {
 	default:
 		// assume the resource requires sending a CustomMessage
